@@ -1,0 +1,24 @@
+//go:build verif
+
+package chain
+
+// Contracts checked by /verif (gvc). This file contains comments only and is compiled only with -tags verif.
+
+// ---- chain.Chain lookups (interfaces MomentumPool / AccountPool): abstract state --------------------------------------
+//@ model MomentumPool momentumStoreAt map[arr]map[int]int   // (hash, height) of a momentum on the node's chain -> its store (0 = unknown)
+//@ model MomentumPool frontierStore int                      // the store of the frontier momentum
+//@ model AccountPool accountStoreAt map[arr]map[arr]map[int]int // address -> (hash, height) of an account block -> account store view (0 = unknown)
+
+//@ func MomentumPool.GetMomentumStore(self, identifier)
+//@   ensures int(result) == self.momentumStoreAt[identifier.Hash][identifier.Height]
+//@   ensures result != nil ==> result.idHash == identifier.Hash && result.idHeight == identifier.Height
+//@   modifies nothing
+
+//@ func MomentumPool.GetFrontierMomentumStore(self)
+//@   ensures result != nil && int(result) == self.frontierStore
+//@   modifies nothing
+
+//@ func AccountPool.GetAccountStore(self, address, identifier)
+//@   ensures int(result) == self.accountStoreAt[address][identifier.Hash][identifier.Height]
+//@   ensures result != nil ==> result.address == address && result.frontierHash == identifier.Hash && result.frontierHeight == identifier.Height
+//@   modifies nothing
